@@ -8,7 +8,7 @@ the unrestricted run for the selected addresses and nothing for unselected varia
 """
 
 
-def _run(selection):
+def _run(selection, devs=None):
     import contextlib
     import io
     import logging
@@ -16,8 +16,11 @@ def _run(selection):
     logging.getLogger('andes').setLevel(logging.CRITICAL)
     with contextlib.redirect_stdout(io.StringIO()), contextlib.redirect_stderr(io.StringIO()):
         ss = andes.load(andes.get_case('kundur/kundur_full.xlsx'), default_config=True, no_output=True, setup=False)
-        for model, varname in selection:
-            ss.add('Output', dict(model=model, varname=varname))
+        for k, (model, varname) in enumerate(selection):
+            row = dict(model=model, varname=varname)
+            if devs and devs[k] is not None:
+                row['dev'] = devs[k]
+            ss.add('Output', row)
         ss.setup()
         ss.TDS.config.tf = 0.6
         ss.TDS.config.store_f = 1
@@ -91,4 +94,23 @@ def run():
         return n, {'call': 'ts.df_x with Output(GENROU.omega)', 'observed': 'columns %r, expected %r' % (list(t2.df_x.columns), want_x)}
     if not np.allclose(t2.df_x.to_numpy(), X[:, sorted(om.a)], rtol=0, atol=1e-12):
         return n, {'call': 'ts.df_x with Output(GENROU.omega)', 'observed': 'values differ from the unrestricted run'}
+    # overlapping selections: all bus voltages, everything of bus 3, all bus voltages once more
+    s3, ok = _run([('Bus', 'v'), ('Bus', None), ('Bus', 'v')], devs=[None, 3, None])
+    if not ok:
+        return n, {'observed': 'run with overlapping Output selections failed'}
+    t3 = s3.dae.ts
+    n += 1
+    for nm, idx in (('xidx', list(s3.Output.xidx)), ('yidx', list(s3.Output.yidx))):
+        if len(set(idx)) != len(idx) or idx != sorted(idx):
+            return n, {'call': 'Output rows (Bus, v), (Bus, dev=3), (Bus, v)', 'observed': 'Output.%s is not strictly increasing: %r' % (nm, [int(i) for i in idx])}
+    labels = list(t3.df_y.columns)
+    if len(set(labels)) != len(labels):
+        return n, {'call': 'ts.df_y with overlapping Output rows', 'observed': 'a variable is stored in more than one column: %r' % labels}
+    for k in range(s3.Bus.n):
+        n += 1
+        got = t3.get_data(s3.Bus.v, a=[k])
+        want = Y[:, bv.a[[k]]]
+        if got is None or np.shape(got) != np.shape(want) or not np.allclose(got, want, rtol=0, atol=1e-12):
+            return n, {'call': 'get_data(Bus.v, a=[%d]) with Output rows (Bus, v), (Bus, dev=3), (Bus, v)' % k,
+                       'observed': 'shape %r (expected %r) or values differ from the unrestricted run' % (np.shape(got), np.shape(want))}
     return n, None
